@@ -199,6 +199,9 @@ type c08Params struct {
 	X5t256  []byte         `json:"x5t256,omitempty"`
 	HasT256 bool           `json:"has_x5t256,omitempty"`
 	Extras  map[string]any `json:"extras,omitempty"`
+	// NoDefaultOps: the key was not built by NewPrivateKey/NewPublicKey (which give crypto/ecdh keys their
+	// default key_ops) but re-keyed with SetPrivateKey/SetPublicKey
+	NoDefaultOps bool `json:"no_default_ops,omitempty"`
 }
 
 // apply sets the parameters on a goat key through its setters.
@@ -444,7 +447,7 @@ func c08RFCJWK(m c08Mat, p c08Params) map[string]any {
 			ops = append(ops, o)
 		}
 		out["key_ops"] = ops
-	} else if m.Kind == "ecdh" {
+	} else if m.Kind == "ecdh" && !p.NoDefaultOps {
 		// jwk.NewPrivateKey / NewPublicKey give crypto/ecdh keys these operations (API contract,
 		// jwk/jwk.go NewPrivateKey doc): key agreement only
 		if m.Priv {
